@@ -17,7 +17,8 @@ Record tables := {
   t_rel : list (bytes * relayer);
   t_tp : list (bytes * token_pair);
   t_sha : list (bytes * bytes);
-  t_addr : list (bytes * bytes) }.
+  t_addr : list (bytes * bytes);
+  t_acc : list (bytes * bool) }.   (* text -> sdk.AccAddressFromBech32(text) == nil *)
 
 Fixpoint blookup {X} (k : bytes) (l : list (bytes * X)) : option X :=
   match l with [] => None | (k', x) :: r => if bytes_eqb k k' then Some x else blookup k r end.
@@ -60,6 +61,7 @@ Section WithTables.
   Definition o_tp_marshal (p : token_pair) : bytes := rlookup pair_eqb p (t_tp T).
   Definition o_sha (x : bytes) : bytes := match blookup x (t_sha T) with Some h => h | None => [] end.
   Definition o_addr (x : bytes) : bytes := match blookup x (t_addr T) with Some h => h | None => [] end.
+  Definition o_acc_ok (x : bytes) : bool := match blookup x (t_acc T) with Some b => b | None => false end.
 
   Definition gen := genesis bytes bytes.
 
@@ -68,14 +70,14 @@ Section WithTables.
   Definition m_import : gen -> outcome mstate :=
     import bytes bytes (fun v => v) (fun v => v) o_rel_marshal o_tp_marshal o_sha o_addr.
   Definition m_validate_xibc (g : gen) : bool :=
-    validate_xibc bytes bytes o_cs_type o_cs_valid o_cons_type o_cons_valid (g_client _ _ g, g_packet _ _ g).
+    validate_xibc bytes bytes o_cs_type o_cs_valid o_cons_type o_cons_valid o_acc_ok (g_client _ _ g, g_packet _ _ g).
   Definition m_validate_agg (g : gen) : bool := validate_agg o_addr (g_pairs _ _ g).
   Definition m_validate_rv (g : gen) : bool := validate_rv (g_rv_params _ _ g).
   Definition m_wf_xibc (s : store) : bool :=
     wf_xibc bytes bytes o_cs_unmarshal (fun v => v) o_cs_type o_cons_unmarshal (fun v => v) o_rel_unmarshal o_rel_marshal s.
   Definition m_wf_agg (s : store) : bool := wf_agg o_tp_unmarshal o_tp_marshal o_sha o_addr s.
   Definition m_valid_xibc (s : store) : bool :=
-    valid_xibc bytes bytes o_cs_unmarshal o_cs_type o_cs_valid o_cons_unmarshal o_cons_type o_cons_valid s.
+    valid_xibc bytes bytes o_cs_unmarshal o_cs_type o_cs_valid o_cons_unmarshal o_cons_type o_cons_valid o_rel_unmarshal o_acc_ok s.
   Definition m_agg_pairs (s : store) : list token_pair := agg_pairs o_tp_unmarshal s.
 End WithTables.
 
